@@ -326,7 +326,7 @@ def tlc_edge_case(case):
         shutil.rmtree(workdir, ignore_errors=True)
 
 
-FUNCS = {"histories": history_case, "tlc_edges": tlc_edge_case}
+FUNCS = {"big_batches": history_case, "histories": history_case, "tlc_edges": tlc_edge_case}
 
 
 def menu(core=False):
@@ -379,7 +379,16 @@ def run(run):
                 for b in deep:
                     for c in deep:
                         cases.append({"kind": kind, "hist": [a, b, c]})
-    secs = [Section("histories", cases, history_case, horizon=120, chunk=200,
+    # batches of 63..130 circuits (a buffer, a page or a chunk size of 64 / 100 / 128 would be crossed), alone and next to a single run
+    big = []
+    for kind in KINDS:
+        pool_ = [1, 2, 5, 0, 6] if kind.startswith("track") else [1, 2, 5, 0, 6, 3]
+        for Lb in ((63, 64, 65, 100, 101, 128, 130, 257) if thorough else (63, 64, 65, 101, 130)):
+            b = [pool_[i % len(pool_)] for i in range(Lb)]
+            big += [{"kind": kind, "hist": [["batch", b, 2]]}, {"kind": kind, "hist": [["batch", b, [1 + i % 3 for i in range(Lb)]], ["run", 1, 3]]},
+                    {"kind": kind, "hist": [["run", 2, 1], ["batch", b, 1], ["batch", b[:3], 2]]}, {"kind": kind, "hist": [["batch", b, [2] * (Lb - 1) + [0]], ["batch", b, 1]]}]
+    secs = [Section("big_batches", big, history_case, horizon=300, chunk=4, desc="batches of 63-130 (thorough 257) circuits on every runner kind, alone, before / after single runs, and rejected for one bad entry")]
+    secs += [Section("histories", cases, history_case, horizon=120, chunk=200,
                     desc="all call histories (full menu: %d events, core: %d) on %d runner kinds" % (len(full_all), len(core_all), len(KINDS)))]
     from mc import tlc
     ok, out, dot, (gen, distinct) = tlc.run_tlc()
